@@ -305,6 +305,8 @@ func checkC06(w *World, r *Report) {
 	rulePopMode(w, r, "C06", fi)
 	rulePopPriorityInit(w, r, "C06")
 	ruleHeapIteration(w, r, "C06")
+	checkHeapSendDiscipline(w, r, "C06.R4")
+	checkNoRequestWhileIterating(w, r, "C06")
 }
 
 // ruleHeapIndex: Push sets index = len, Swap keeps both indices, Pop marks -1 and returns the last element.
@@ -382,4 +384,59 @@ func ruleHeapIndex(w *World, r *Report, pfx string) {
 		r.Check(ok, rule, "priorityQueue.Pop", w.pos(po.Pos()), "popped bar marked index < 0", "Pop does not mark the popped bar as outside the heap: a priority update while the bar is handed out would corrupt the heap")
 	}
 	r.Floor(rule, 3, "Swap, Push, Pop")
+}
+
+// ruleHeapOrder: the comparison rule alone (direct strict comparison), for properties that depend on heap order.
+func ruleHeapOrder(w *World, r *Report, pfx string) {
+	less := w.Func("mpb.(priorityQueue).Less")
+	if less == nil || len(less.Blocks) != 1 {
+		r.Unresolved("anchor", "priorityQueue.Less", "not found")
+		return
+	}
+	ret, _ := less.Blocks[0].Instrs[len(less.Blocks[0].Instrs)-1].(*ssa.Return)
+	bin, ok := ret.Results[0].(*ssa.BinOp)
+	i, j := ssa.Value(less.Params[1]), ssa.Value(less.Params[2])
+	good := ok && (bin.Op == token.GTR || bin.Op == token.LSS) &&
+		((pqElemField(bin.X, "priority", i) && pqElemField(bin.Y, "priority", j)) || (pqElemField(bin.X, "priority", j) && pqElemField(bin.Y, "priority", i)))
+	r.Check(good, pfx+".O-LESS", "priorityQueue.Less", w.pos(less.Pos()), "direct strict comparison of the two priorities", "Less does not compare pq[i].priority with pq[j].priority directly (arithmetic such as a difference overflows for distant priorities, e.g. the pop priority against a bar pinned with MaxInt, and flips the order)")
+}
+
+// ruleFixArm: the heap loop's fix arm never calls heap.Fix for a bar that is not in the heap.
+func ruleFixArm(w *World, r *Report, pfx string) {
+	loop, arms, outer, _, _ := w.heapLoopState()
+	if loop == nil || outer == nil {
+		return
+	}
+	bad := ""
+	n := 0
+	for k, ab := range arms {
+		hasFix := false
+		for _, b := range loop.Blocks {
+			if !armContains(loop, arms, k, ab, b) {
+				continue
+			}
+			for _, in := range b.Instrs {
+				if c, ok := in.(*ssa.Call); ok && isHeapCall(c, "Fix") {
+					hasFix = true
+				}
+			}
+		}
+		if !hasFix {
+			continue
+		}
+		w.enumPaths(loop, pathOpts{Start: ab, StopAt: func(b *ssa.BasicBlock) bool { return b == outer.Header }}, func(p *Path) {
+			for _, ev := range p.Events {
+				if c, ok := ev.In.(*ssa.Call); ok && isHeapCall(c, "Fix") {
+					n++
+					if !p.hasCmp(ev.Idx, token.GEQ, loadOf(tBar, "index"), isConstInt(0)) {
+						bad = "heap.Fix is reached on a path without the atom index >= 0: for a bar that left the heap this panics the heap loop (index out of range)"
+					}
+					if !isLoad(Val{V: c.Call.Args[1]}, tBar, "index") {
+						bad = "heap.Fix is not called with the bar's recorded heap index"
+					}
+				}
+			}
+		})
+	}
+	r.Check(bad == "" && n > 0, pfx+".O-FIXGUARD", "heap loop fix arm", w.pos(loop.Pos()), "Fix only for bars in the heap (index >= 0)", orStr(bad, "no Fix call found"))
 }
